@@ -7,7 +7,7 @@
           theorem C01_leaf_faithful. *)
 From Coq Require Import NArith List Bool.
 From PS Require Import Base.Chars Base.Outcome Model.SString Model.StrOp Model.FieldName Model.Leaf
-  Spec.Items Spec.Atom Run.Bits.
+  Spec.Items Spec.Atom Spec.Lex Proofs.LeafLexP Run.Bits.
 Import ListNotations.
 Open Scope N_scope.
 
@@ -130,7 +130,8 @@ Definition refusable (v : lval) : bool :=
 
 Definition spec_view (W : char -> bool) (c : lcase) (neg : bool) (r : outcome str) : bool :=
   match r with
-  | Ok txt => match atom_decode W txt with
+  | Ok txt => shapeb txt &&      (* one lexical unit of the query language (Spec/Lex.v) *)
+              match atom_decode W txt with
               | Some a => acceptb neg (field_of c) (lc_v c) a
               | None => false
               end
@@ -158,7 +159,7 @@ Definition dom_leaf (c : lcase) : bool :=
   | Some k =>
       lcfg_eqb (lc_K c) (vb k) && negb (is_some (k_qpat k)) && wok (lc_extra c) &&
       match lc_f c with
-      | Some (f, fo) => fo_ok (W_of (lc_extra c)) f fo && val_ok (W_of (lc_extra c)) f (lc_v c)
+      | Some (f, fo) => fo_ok (W_of (lc_extra c)) f fo && val_ok (W_of (lc_extra c)) f (lc_v c) && lex_ok f (lc_v c)
       | None => val_ok (W_of (lc_extra c)) [c_us] (lc_v c)
       end
   end.
